@@ -209,7 +209,7 @@ def literal_case(ctx):
 
 
 KW_REGEX = [r"\w+", r"[a-z]+", r"[\w+]+", r"[a-z]+\+*", r"[a-z_]\w*", r"\+\+|\w+"]
-KW_TEXTS = ["for", "to", "f", "a+", "++", "c++", "+", "in", "i", "=", "a_b", "x1", "if", "fo"]
+KW_TEXTS = ["for", "to", "f", "a+", "++", "c++", "+", "in", "i", "=", "a_b", "x1", "if", "fo", "FOR", "Begin", "X", "eND"]
 ID_REGEX = [r"[a-z]+", r"\w+", r"[a-z+]+", r"[a-z][a-z0-9_]*"]
 
 
@@ -217,6 +217,9 @@ def keyword_case(ctx, mon):
     rng = ctx.rng
     k = rng.randint(2, 4)
     texts = rng.sample(KW_TEXTS, k)
+    # (two texts equal up to case are legitimately refused under ignore_case)
+    while len(set(t.lower() for t in texts)) < len(texts):
+        texts = rng.sample(KW_TEXTS, k)
     kwre = rng.choice(KW_REGEX)
     idre = rng.choice(ID_REGEX)
     ignore_case = rng.random() < 0.15
@@ -266,7 +269,7 @@ def keyword_case(ctx, mon):
             ctx.case((text, "kwflag", n), True)
             ctx.violation("keyword-classification", {"grammar": text, "terminal": n}, "terminal %s text %r: keyword=%s, the KEYWORD regex %s it fully" % (n, tdefs[n].text, t.keyword, "matches" if tdefs[n].kind == "kw" else "does not match"))
             return
-    pieces = texts + ["x", "ab", "fora", "a", "+", " "]
+    pieces = texts + [t.lower() for t in texts] + ["x", "ab", "fora", "a", "+", " ", "Beginx", "FORa"]
     inputs = set()
     for _ in range(40 if ctx.tier == "quick" else 80):
         n = rng.randint(1, 4)
